@@ -190,12 +190,20 @@ func (c *collector) Collect(ch chan<- prometheus.Metric) {
 		ch <- c.targetInfo
 	}
 
-	if c.resourceAttributesFilter != nil && len(c.resourceKeyVals.keys) == 0 {
+	c.mu.Lock()
+	needResourceAttrs := c.resourceAttributesFilter != nil && len(c.resourceKeyVals.keys) == 0
+	c.mu.Unlock()
+	if needResourceAttrs {
 		c.createResourceAttributes(metrics.Resource)
 	}
+	// Read the key/values under the lock: a concurrent first scrape may be
+	// writing them in createResourceAttributes.
+	c.mu.Lock()
+	resourceKeyVals := c.resourceKeyVals
+	c.mu.Unlock()
 
 	for _, scopeMetrics := range metrics.ScopeMetrics {
-		n := len(c.resourceKeyVals.keys) + 2 // resource attrs + scope name + scope version
+		n := len(resourceKeyVals.keys) + 2 // resource attrs + scope name + scope version
 		kv := keyVals{
 			keys: make([]string, 0, n),
 			vals: make([]string, 0, n),
@@ -218,8 +226,8 @@ func (c *collector) Collect(ch chan<- prometheus.Metric) {
 			kv.vals = append(kv.vals, scopeMetrics.Scope.Name, scopeMetrics.Scope.Version)
 		}
 
-		kv.keys = append(kv.keys, c.resourceKeyVals.keys...)
-		kv.vals = append(kv.vals, c.resourceKeyVals.vals...)
+		kv.keys = append(kv.keys, resourceKeyVals.keys...)
+		kv.vals = append(kv.vals, resourceKeyVals.vals...)
 
 		for _, m := range scopeMetrics.Metrics {
 			typ := c.metricType(m)
